@@ -215,6 +215,29 @@ fn merge_cascade_history(s: &mut Scenario, r: &mut Rng) {
     s.probes.truncate(3);
 }
 
+/// Many small commits that each touch a few different children of the root page with several
+/// commit workers: every such commit is one more chance for a mis-step in the hand-off between the
+/// workers and the one that finishes the root page (the races there are a couple of
+/// instructions wide; a run with one big batch has one chance, this one has dozens).
+fn handoff_history(s: &mut Scenario, r: &mut Rng) {
+    // one key per root child (distinct first six bits), a few children with two
+    let mut keys: Vec<Key> = Vec::new();
+    for c in 0..64u8 { if r.chance(3, 4) { let mut k = r.bytes32(); k[0] = (c << 2) | (k[0] & 3); keys.push(k); if r.chance(1, 6) { let mut k2 = r.bytes32(); k2[0] = (c << 2) | (k2[0] & 3); keys.push(k2); } } }
+    keys.sort(); keys.dedup();
+    let mut stamp = 1_700_000u32;
+    let mut steps = Vec::new();
+    let mk = |sel: Vec<Key>, stamp: &mut u32, r: &mut Rng| -> Batch { let mut items: Vec<(K, Act)> = sel.into_iter().map(|k| { *stamp += 1; (K(k), if r.chance(1, 10) { Act::Write(None) } else { Act::Write(Some(VSpec { len: *r.pick(&[4u32, 8, 32, 100]), stamp: *stamp })) }) }).collect(); items.sort_by(|a, b| a.0.cmp(&b.0)); items.dedup_by(|a, b| a.0 == b.0); Batch { items, ..Default::default() } };
+    steps.push(Step::Commit { batch: mk(keys.clone(), &mut stamp, r), nonblocking: false });
+    for _ in 0..r.range(30, 70) {
+        let n = r.range(2, 7) as usize;
+        let sel: Vec<Key> = (0..n).map(|_| *r.pick(&keys)).collect();
+        steps.push(Step::Commit { batch: mk(sel, &mut stamp, r), nonblocking: false });
+    }
+    s.opts.commit_concurrency = *r.pick(&[2usize, 2, 3, 4, 4, 8]);
+    s.steps = steps;
+    s.probes.truncate(2);
+}
+
 /// A value-file free list spanning several pages: a few dozen multi-page values are written and
 /// then all replaced in one commit (more than 1022 pages released at once), followed by reopen /
 /// small commit / reopen / large commit / ... so that the list is read back from disk, popped
@@ -291,6 +314,11 @@ pub fn make(prop: &str, tier: Tier, seed: u64) -> Scenario {
         for st in s.steps.iter_mut() { if let Step::Reopen { opts } = st { opts.commit_concurrency = opts.commit_concurrency.min(8); } }
         if !s.extra.is_object() { s.extra = json!({}); }
         s.extra["rollback_history_every"] = json!(12);
+    }
+    let mut hr = Rng::new(seed ^ 0x4A4D_0FF5);
+    if matches!(prop, "C02" | "C13") && s.extra.get("plan").is_none() && s.extra.get("kind").is_none() && (hr.chance(1, if prop == "C13" { 6 } else { 8 }) || std::env::var("SIM_FORCE_FAMILY").map_or(false, |v| v == "handoff")) {
+        handoff_history(&mut s, &mut hr);
+        s.checks.proofs = false; s.checks.witness = false; s.checks.multiproof = false; s.checks.reopen_equal = false;
     }
     // buggify: in a quarter of the fault-free runs page reads and writes are sometimes cut short
     // or interrupted (EINTR); nothing observable may change
@@ -485,7 +513,9 @@ fn make_inner(prop: &str, tier: Tier, seed: u64) -> Scenario {
             opts.buckets = opts.buckets.min(4096);
             let n = g.range(2, 3);
             let openers: Vec<(u32, u32, bool, bool)> = (0..n).map(|_| (g.range(0, 60) as u32 * g.range(0, 3) as u32, g.range(0, 40) as u32, g.chance(1, 2), g.chance(1, 4))).collect();
-            let plan = crate::conc::OpenPlan { dir_state: g.pick(&["existing", "existing", "empty", "missing"]).to_string(), initial, openers };
+            let mut g3 = Rng::new(seed ^ 0xC20_0003);
+            let retries: Vec<u32> = openers.iter().map(|_| if g3.chance(1, 2) { g3.range(1, 4) as u32 } else { 0 }).collect();
+            let plan = crate::conc::OpenPlan { dir_state: g.pick(&["existing", "existing", "empty", "missing"]).to_string(), initial, openers, retries };
             Scenario { property: "C20".into(), run_seed: seed, hasher: Hasher::Blake3, opts, knobs: Knobs { seg_max_size: None, grow_pages: Some(16) }, probes: vec![], steps: vec![], faults: vec![],
                 sched: if g.chance(1, 3) { Sched::Pct(g.range(1, 4) as usize) } else { Sched::Random }, sched_seed: g.next(), checks: Checks::default(), extra: json!({ "kind": "openrace", "plan_open": plan }) }
         }
